@@ -1,4 +1,4 @@
-import PhyModel.Proofs.PGSub5
+import PhyModel.Proofs.PGSub7
 import Mathlib.Tactic.NormNum
 /-! Concrete instance for the non-vacuity examples of the conditional statement about the
 random-subtree move (C04): four data points; the full tree is the chain `0 → 1 → 2` with data point 3 an
@@ -66,5 +66,17 @@ theorem subRemGood : ∀ i ∈ subRem.all, C19P.GoodIdx subData i := by
   have : i = 0 := by simpa [subRem, Forest.all] using hi
   subst this
   exact subGood 0 (by omega)
+
+theorem subFull_wft (k : Proposal.Prop3) : WFT (subCfg k) subFull := by
+  refine ⟨by decide +kernel, by decide +kernel, by decide +kernel, by decide +kernel, ?_⟩
+  intro h; exact absurd h (by norm_num [subCfg])
+
+theorem subFull_good : ∀ j ∈ subFull.f.all ++ subFull.out, C19P.GoodIdx subData j := by
+  intro j hj
+  have : j ∈ [2, 1, 0, 3] := by
+    have e : subFull.f.all ++ subFull.out = [2, 1, 0, 3] := by decide +kernel
+    rw [e] at hj; exact hj
+  simp only [List.mem_cons, List.not_mem_nil, or_false] at this
+  exact subGood j (by omega)
 
 end PhyModel.PG
